@@ -111,7 +111,8 @@ type Obs struct {
 	Reads   []int       `json:"reads,omitempty"` // bindings in the order they were read
 	GrpKeys []string    `json:"grp_keys,omitempty"`
 	GrpObjs []string    `json:"grp_objs,omitempty"`
-	Dyn     [][]View    `json:"dyn_reads,omitempty"` // the snapshot at every read of a dyn history
+	Dyn     [][]View    `json:"dyn_reads,omitempty"`      // the snapshot at every read of a dyn history
+	DynC    [][]View    `json:"dyn_comp_reads,omitempty"` // ... of the companion binding
 	Note    string      `json:"note,omitempty"`
 }
 
@@ -779,14 +780,29 @@ func Gen(r *core.Rng, tier string) ([]core.In[Input], bool) {
 		add(Input{Upd: &u}, "upd")
 		if i%every == 0 && i/every < nDyn {
 			d, ops := genDyn(r, 3+r.Intn(12))
-			add(Input{Dyn: &d, DynOps: ops}, "dyn")
+			st := "dyn"
+			if d.GhostNs == nil && (i/every)%5 < 2 {
+				// beside a companion binding with static namespaces in the same process
+				comp := DynComp{Filter: r.Chance(50), DropFull: r.Chance(30), First: r.Chance(50), SameDebug: r.Chance(50)}
+				for n := 1; n <= 3; n++ {
+					if r.Chance(60) {
+						comp.Nss = append(comp.Nss, n)
+					}
+				}
+				if len(comp.Nss) == 0 {
+					comp.Nss = []int{1 + r.Intn(3)}
+				}
+				d.Comp = &comp
+				st = "dyn-companion"
+			}
+			add(Input{Dyn: &d, DynOps: ops}, st)
 		}
 	}
 	return ins, false
 }
 
 var Driver = core.Driver[Input, Obs]{
-	Spec: core.Spec{Property: "C02", Imports: []string{"C02_Model", "C02_Spec", "C02_Corr"}, Corr: "C02_Corr", Triggers: []string{"F25", "F26", "F32"}, ShrinkKey: "dyn_ops",
-		Rule: "snap: a real monitor on a fake cluster (static namespaces / all namespaces, nameSelector with repeated entries, initial objects, with and without jqFilter .data, keepFullObjectsInMemory true/false; object content = a part the filter selects + a label outside it, 35% of modifications touch only the latter) follows generated create/modify/delete histories over 3 namespaces x 3 names, Snapshot() at quiescence and after a restart compared entry by entry (identity, filterResult, object) with the matching objects of the cluster; upd: the real HookController.UpdateSnapshots over a reader that answers differently on every call, random include topologies and context arrays; grp: a real hook config with two kubernetes bindings sharing a group, named and unnamed (trigger F25); one ghost scenario (trigger F26); dyn: a real monitor with namespace.labelSelector (matchLabels or matchExpressions; its REAL namespace informer on the fake cluster, whose Namespace objects are kept equal to what a label-filtered watch shows; with and without nameSelector / jqFilter / keepFullObjectsInMemory) follows generated histories over 3 namespaces x 3 names of object create/modify/delete (objects moving between namespaces), namespaces created with or without the label / gaining or losing it / deleted (with their objects left behind, or deleted too), changes that keep a namespace matching, and operator restarts; namespaces matching at the start, at a restart and only later all stop matching and match again; Snapshot() at every read point (1-5 per history) compared entry by entry with the objects of the namespaces that match THEN; fixed corpus of 10 such histories; failing dyn histories are shortened; non-trivial = >=3 cluster operations or >=2 contexts; distinct by input"},
+	Spec: core.Spec{Property: "C02", Imports: []string{"C02_Model", "C02_Spec", "C02_Comp", "C02_CompSpec", "C02_Corr"}, Corr: "C02_Corr", Triggers: []string{"F25", "F26", "F32"}, ShrinkKey: "dyn_ops",
+		Rule: "snap: a real monitor on a fake cluster (static namespaces / all namespaces, nameSelector with repeated entries, initial objects, with and without jqFilter .data, keepFullObjectsInMemory true/false; object content = a part the filter selects + a label outside it, 35% of modifications touch only the latter) follows generated create/modify/delete histories over 3 namespaces x 3 names, Snapshot() at quiescence and after a restart compared entry by entry (identity, filterResult, object) with the matching objects of the cluster; upd: the real HookController.UpdateSnapshots over a reader that answers differently on every call, random include topologies and context arrays; grp: a real hook config with two kubernetes bindings sharing a group, named and unnamed (trigger F25); one ghost scenario (trigger F26); dyn: a real monitor with namespace.labelSelector (matchLabels or matchExpressions; its REAL namespace informer on the fake cluster, whose Namespace objects are kept equal to what a label-filtered watch shows; with and without nameSelector / jqFilter / keepFullObjectsInMemory) follows generated histories over 3 namespaces x 3 names of object create/modify/delete (objects moving between namespaces), namespaces created with or without the label / gaining or losing it / deleted (with their objects left behind, or deleted too), changes that keep a namespace matching, and operator restarts; namespaces matching at the start, at a restart and only later all stop matching and match again; Snapshot() at every read point (1-5 per history) compared entry by entry with the objects of the namespaces that match THEN; two histories in five run beside a companion binding of the same kind and names with static namespaces (created before or after the first binding's monitor, also at restarts; same or different debug name; its informers share the first binding's shared informers of the factory store), whose snapshot at every read point is compared entry by entry with the objects of ITS namespaces (C02_Comp / C02_CompSpec.P_comp); fixed corpus of 13 such histories; failing dyn histories are shortened; non-trivial = >=3 cluster operations or >=2 contexts; distinct by input"},
 	Gen: Gen, Run: Run, Render: Render, PerShard: 400, Workers: 8, CaseTimout: 40 * time.Second,
 }
